@@ -1090,6 +1090,8 @@ class Translator:
                     else:
                         fail("internal: embedUsing stage")
                 done = True
+            elif self.irrelevant(st[1], extra=(b, e, kc, dc, fc, "output", "context") + tuple(var_kw)):
+                self.notes.append("tapkee::embed: statement ignored (touches nothing the property talks about): " + s[:80])
             else:
                 fail("tapkee::embed: statement not understood: " + s)
         if not done:
@@ -1124,6 +1126,15 @@ class Translator:
                 fail("stichwort::%s no longer derives directly from a std exception" % cls)
         return stages, rethrow
 
+    @staticmethod
+    def irrelevant(toks, extra=()):
+        """a simple statement that cannot influence validation: no control transfer, no use of the
+        parameters, the context, the callbacks, the data range or the named variables"""
+        bad = {"throw", "return", "goto", "break", "continue", "parameters", "context", "this", "begin", "end",
+               "kernel", "distance", "features", "exit", "abort", "terminate", "longjmp", "try", "catch",
+               "while", "for", "do", "if", "switch", "n_vectors", "current_dimension"} | set(extra)
+        return not any(t in bad for t in toks)
+
     # ---- methods.hpp embedUsing
     def embed_using(self, methods):
         toks = self.T("tapkee/methods.hpp")
@@ -1142,6 +1153,9 @@ class Translator:
                 if re.fullmatch(r"const auto & self = static_cast < ImplementationBase < [^>]* > > \( \* this \)", s):
                     continue
                 if s == "return TapkeeOutput ( )":
+                    continue
+                if self.irrelevant(st[1], extra=(mv, "implementation", "self")):
+                    self.notes.append("embedUsing: statement ignored (touches nothing the property talks about): " + s[:80])
                     continue
                 fail("embedUsing: statement not understood: " + s)
             if st[0] != "if":
